@@ -1292,17 +1292,23 @@ class TLSConnection(TLSRecordLayer):
         sr_kex = serverHello.getExtension(ExtensionType.key_share)
         sr_psk = serverHello.getExtension(ExtensionType.pre_shared_key)
         if not sr_kex and not sr_psk:
-            raise TLSIllegalParameterException("Server did not select PSK nor "
-                                               "an (EC)DH group")
+            for result in self._sendError(
+                    AlertDescription.illegal_parameter,
+                    "Server did not select PSK nor an (EC)DH group"):
+                yield result
         if sr_kex:
             sr_kex = sr_kex.server_share
             self.ecdhCurve = sr_kex.group
             cl_key_share_ex = clientHello.getExtension(ExtensionType.key_share)
-            cl_kex = next((i for i in cl_key_share_ex.client_shares
-                           if i.group == sr_kex.group), None)
+            cl_kex = None
+            if cl_key_share_ex is not None:
+                cl_kex = next((i for i in cl_key_share_ex.client_shares
+                               if i.group == sr_kex.group), None)
             if cl_kex is None:
-                raise TLSIllegalParameterException("Server selected not "
-                                                   "advertised group.")
+                for result in self._sendError(
+                        AlertDescription.illegal_parameter,
+                        "Server selected not advertised group."):
+                    yield result
             kex = self._getKEX(sr_kex.group, self.version)
             shared_sec = kex.calc_shared_key(cl_kex.private,
                                              sr_kex.key_exchange)
@@ -1313,6 +1319,12 @@ class TLSConnection(TLSRecordLayer):
         resuming = False
         if sr_psk:
             clPSK = clientHello.getExtension(ExtensionType.pre_shared_key)
+            if clPSK is None or sr_psk.selected is None or \
+                    sr_psk.selected >= len(clPSK.identities):
+                for result in self._sendError(
+                        AlertDescription.illegal_parameter,
+                        "Server selected PSK identity we did not offer"):
+                    yield result
             ident = clPSK.identities[sr_psk.selected]
             psk = [i[1] for i in settings.pskConfigs if i[0] == ident.identity]
             if psk:
@@ -1496,8 +1508,11 @@ class TLSConnection(TLSRecordLayer):
                         cert_entry,
                         clientHello,
                         certificate_verify):
-                    raise TLSDecryptionFailed("server Delegated Credential " \
-                                              "verification failed.")
+                    for result in self._sendError(
+                            AlertDescription.decrypt_error,
+                            "server Delegated Credential verification "
+                            "failed."):
+                        yield result
                 delegated_credential = cert_ext.delegated_credential
                 publicKey = delegated_credential.cred.pub_key
                 signature_scheme = delegated_credential.cred.dc_cert_verify_algorithm
@@ -1517,9 +1532,11 @@ class TLSConnection(TLSRecordLayer):
                 matching_hash = curve_name_to_hash_name(
                     publicKey.curve_name)
                 if hash_name != matching_hash:
-                    raise TLSIllegalParameterException(
-                        "server selected signature method invalid for the "\
-                        "certificate it presented (curve mismatch)")
+                    for result in self._sendError(
+                            AlertDescription.illegal_parameter,
+                            "server selected signature method invalid for "
+                            "the certificate it presented (curve mismatch)"):
+                        yield result
 
                 salt_len = None
                 method = publicKey.verify
@@ -1541,9 +1558,11 @@ class TLSConnection(TLSRecordLayer):
                           pad_type,
                           hash_name,
                           salt_len):
-                raise TLSDecryptionFailed("server Certificate Verify "
-                                          "signature "
-                                          "verification failed")
+                for result in self._sendError(
+                        AlertDescription.decrypt_error,
+                        "server Certificate Verify signature verification "
+                        "failed"):
+                    yield result
 
         transcript_hash = self._handshake_hash.digest(prfName)
 
@@ -1565,7 +1584,10 @@ class TLSConnection(TLSRecordLayer):
         verify_data = secureHMAC(finished_key, transcript_hash, prfName)
 
         if finished.verify_data != verify_data:
-            raise TLSDecryptionFailed("Finished value is not valid")
+            for result in self._sendError(
+                    AlertDescription.decrypt_error,
+                    "Finished value is not valid"):
+                yield result
 
         # now send client set of messages
         self._changeWriteState()
